@@ -79,7 +79,11 @@ class PerAntennaPowerConstraint(BaseConstraint):
         """
         # Calculate current power per antenna (all dimensions except batch and antenna)
         spatial_dims = tuple(range(2, len(x.shape)))
-        antenna_power = torch.mean(torch.abs(x) ** 2, dim=spatial_dims, keepdim=True)
+        if x.dim() == 2:
+            # [batch, antennas] without spatial dimensions: one sample per antenna (an empty `dim` tuple would average over everything)
+            antenna_power = torch.abs(x) ** 2
+        else:
+            antenna_power = torch.mean(torch.abs(x) ** 2, dim=spatial_dims, keepdim=True)
 
         # Determine target power
         if self.power_budget is not None:
